@@ -183,7 +183,10 @@ func (g *pgen) typ(d int) string {
 }
 
 func (g *pgen) tag() string {
-	switch g.r.Intn(5) {
+	switch g.r.Intn(6) {
+	case 4:
+		// values with graphic non-ASCII spaces written as escapes, non-ASCII keys and values
+		return []string{" `k:\"first\\u3000last\" nb:\"a\\u00a0b\"`", " `é:\"ü\" ключ:\"значение\"`", " `sp:\"a\\u2003b\"`"}[g.r.Intn(3)]
 	case 0:
 		return " `json:\"a\" xml:\"b\"`"
 	case 1:
